@@ -79,14 +79,14 @@ BOUNDS = {
                         'exactly fills its field)',
                         'hang7r0..6 (a 7-node column with three straight mid-side nodes among six quadrilaterals, '
                         'node list started at each of its 7 nodes)'],
-              'depth': {'rect2x2': 2, 'rect3x2': 2, 'mixed6': 2, 'g7': 1, 'rect2x2L': 2, 'rect2x1n': 2, 'hang7r0': 2,
+              'depth': {'rect2x2': 2, 'rect3x2': 2, 'mixed6': 2, 'g7': 1, 'rect2x2L': 1, 'rect2x1n': 2, 'hang7r0': 2,
                         'rect2x2Lw0': 2, 'rect2x2Lw3': 1, 'hang7r1': 1, 'hang7r2': 1, 'hang7r3': 1, 'hang7r4': 1, 'hang7r5': 1, 'hang7r6': 1},
               'subsets_depth0': 'every non-empty column subset (<= 6 columns)',
               'subsets_deeper': 'singles and the full set; single-object arguments (split_column quad, delete_column, '
                                 'rename, connection, layer): the first and the last canonical candidate'},
     'thorough': {'builders': 'as quick',
                  'seeds': ['rect2x2', 'rect3x2', 'mixed6', 'g7', 'rect2x2L', 'rect2x1n', 'hang7r0..6', 'rect2x2Lw0', 'rect2x2Lw3'],
-                 'depth': {'rect2x2': 3, 'rect3x2': 2, 'mixed6': 3, 'g7': 1, 'rect2x2L': 3, 'rect2x1n': 3, 'hang7r0': 2,
+                 'depth': {'rect2x2': 3, 'rect3x2': 2, 'mixed6': 3, 'g7': 1, 'rect2x2L': 2, 'rect2x1n': 3, 'hang7r0': 2,
                            'rect2x2Lw0': 2, 'rect2x2Lw3': 2, 'hang7r1': 2, 'hang7r2': 2, 'hang7r3': 2, 'hang7r4': 2, 'hang7r5': 2, 'hang7r6': 2},
                  'subsets_depth0': 'every non-empty column subset (<= 6 columns); g7: singles on a stride, one pair, full set',
                  'subsets_depth1': 'all subsets while <= 6 columns, otherwise singles, pairs of neighbours and the full set',
@@ -616,6 +616,13 @@ def ops_of_factory(tier):
         else:
             subs = subsets(nc, rule)
         ops = []
+
+        def dup_ok(S, full=False):
+            # repeated-member selections: every small selection on the seed itself; deeper in a sequence the
+            # first canonical column (and for refine the whole set)
+            if depth == 0:
+                return len(S) <= 2 or (full and len(S) == nc)
+            return S == [0] or (full and len(S) == nc and nc > 1)
         nbr = dict((i, set()) for i in range(nc))
         for a, b in adjidx:
             nbr[a].add(b)
@@ -631,7 +638,7 @@ def ops_of_factory(tier):
                         if reduced and b == 'y':
                             continue
                         ops.append(['refine', S, b])
-                        if (len(S) == 1 or len(S) == nc) and b in (False, True):
+                        if dup_ok(S, True) and b in (False, True):
                             ops.append(['refine', S, b, 'dup'])
             if not reduced and all(small.values()):
                 ops.append(['refine', [], False])          # the default argument: all columns
@@ -647,7 +654,7 @@ def ops_of_factory(tier):
                 for S in subs:
                     if any(i in big for i in S) and (len(S) <= 2 or len(S) == nc):
                         ops.append(['decompose_columns', S])
-                        if len(S) <= 2:
+                        if len(S) <= 2 and dup_ok(S):
                             ops.append(['decompose_columns', S, 'dup'])
             ops.append(['fit_surface'])
         # reduce to an edge-connected proper subset
@@ -656,7 +663,7 @@ def ops_of_factory(tier):
                 if reduced and len(S) > 1:
                     continue
                 ops.append(['reduce', S])
-                if len(S) <= 2:
+                if len(S) <= 2 and dup_ok(S):
                     ops.append(['reduce', S, 'dup'])
         # renames
         for i in pick(range(nc), cand):
@@ -707,7 +714,7 @@ def ops_of_factory(tier):
                     if reduced and f == 3:
                         continue
                     ops.append(['refine_layers', [i + 1 for i in L], f])
-                    if f == 2 and len(L) <= 2:
+                    if f == 2 and len(L) <= 2 and (depth == 0 or L == [0]):
                         ops.append(['refine_layers', [i + 1 for i in L], f, 'dup'])
             if not reduced:
                 ops.append(['refine_layers', [], 2])
@@ -722,7 +729,7 @@ def ops_of_factory(tier):
         for S in ssub:
             ops.append(['snap_columns_to_layers', S])
             ops.append(['snap_columns_to_nearest_layers', S])
-            if S:
+            if S and dup_ok(S):
                 ops.append(['snap_columns_to_layers', S, 'dup'])
                 ops.append(['snap_columns_to_nearest_layers', S, 'dup'])
         ops.append(['translate'])
@@ -1127,9 +1134,9 @@ def op_class(op):
 
 # ----------------------------------------------------------------------------------- units
 
-NCHUNK = {'quick': {'rect2x2': 12, 'rect3x2': 40, 'mixed6': 8, 'g7': 8, 'rect2x2L': 12, 'rect2x1n': 4, 'hang7r0': 12,
+NCHUNK = {'quick': {'rect2x2': 12, 'rect3x2': 40, 'mixed6': 8, 'g7': 8, 'rect2x2L': 1, 'rect2x1n': 4, 'hang7r0': 12,
                     'rect2x2Lw0': 12, 'rect2x2Lw3': 1},
-          'thorough': {'rect2x2': 68, 'rect3x2': 48, 'mixed6': 40, 'g7': 8, 'rect2x2L': 68, 'rect2x1n': 16,
+          'thorough': {'rect2x2': 68, 'rect3x2': 48, 'mixed6': 40, 'g7': 8, 'rect2x2L': 16, 'rect2x1n': 16,
                        'rect2x2Lw0': 16, 'rect2x2Lw3': 16}}
 for _r in range(7):
     NCHUNK['thorough']['hang7r%d' % _r] = 8
